@@ -190,6 +190,48 @@ CLAIMED["C15"] = (
     "DESIGN.md §4 C15",
 )
 
+VAL_NOTE = (
+    "Instantiation: the real value/pair/vector code over Storage<ArrStorage> (array-backed StorageData, 192 or 448 bytes, "
+    "`--max-field-sensitivity-array-size` raised accordingly). Variants and lengths are enumerated per harness (a symbolic "
+    "variant makes CBMC walk all nine store/load arms incl. storage I/O); contents are symbolic. Stubs: fmt::format, "
+    "DbError::new, From<TryFromSliceError>/From<FromUtf8Error> where reachable."
+)
+CLAIMED["C12"] = (
+    "store_db_value -> load_db_value (and the DbKeyValue VecValue store/load/remove around them) for every value type, "
+    "decided for all contents within the bounds: i64/u64/f64 all 2^64 bit patterns (floats compared by to_bits: NaN "
+    "payloads, signed zeros), Bytes and String at every length 0..=17 across the 15/16-byte inline boundary, numeric and "
+    "string vectors of 0..2 elements; stored inline or out of line exactly as the boundary dictates, read back identical "
+    "from the storage and again after reopening from a copy of the bytes, as key and as value of a pair; remove frees the "
+    "out-of-line record. DbValueIndex accessors for all 2^128 index patterns.",
+    VAL_NOTE + " Outside: lengths > 17, vectors > 2 elements, symbolic non-ASCII content on the out-of-line path, removal "
+    "through the free list (BTreeMap path did not finish), 'from every database variant' (via C06).",
+    "DESIGN.md §4 C12",
+)
+CLAIMED["C09"] = (
+    "DbKeyValues (the per-element pair vectors) over the real DbVec/Storage: insert_or_replace replaces in place and "
+    "returns the old pair, a new key is appended, remove_value deletes exactly that key and keeps order, removing an "
+    "element empties only that element and the reused index starts empty; keys, value, values_by_keys (requested order), "
+    "values and key_count agree with a reference model in plain arrays. Element, key and operation are enumerated, values "
+    "are symbolic i64.",
+    VAL_NOTE + " HONEST LIMIT: a symbolic operation sequence is not feasible (the concrete prefix alone costs minutes), so "
+    "these harnesses are concrete scenarios with symbolic values. Outside: the query layer (missing key of a named element "
+    "is an error, insert by alias/search) -- DbImpl.",
+    "DESIGN.md §4 C09",
+)
+CLAIMED["C07"] = (
+    "Decoders fed with ARBITRARY bytes must return Ok or Err, never panic/overflow/index out of range: "
+    "Storage::with_data (open path: read_records, set_record, extract_version) on an arbitrary buffer, the read entry "
+    "points on a storage that opened, DbValue::load_db_value for arbitrary 16-byte value indexes, DbKeyValue::load/remove "
+    "for arbitrary and truncated pairs, DbVec::from_storage on arbitrary records, the fixed-size index records of the "
+    "graph, the maps and the database root, MapValueState, and WriteAheadLog::new/records on torn logs (shared with C01). "
+    "Accepted inputs are additionally required to re-serialise to the same bytes.",
+    VAL_NOTE + " One finding is listed in KNOWN_FINDINGS.txt (load_db_value: `_ => panic!()` on an unknown type tag -- "
+    "pinned by the repository's own #[should_panic] test, so not repairable under the rules). Outside: DbImpl open and a "
+    "full read of an opened database; an allocation that is large but below CBMC's object-size limit and does not trip "
+    "std's capacity check would not be flagged.",
+    "DESIGN.md §4 C07",
+)
+
 NOT_APPLICABLE = {
 }
 
